@@ -64,17 +64,25 @@ Definition seg_ok (s : seg) : bool :=
 (* element headers  id:"name":Type  *)
 Definition name_text (nm : option string) : string := match nm with Some s => s | None => "NULL" end.
 Definition head_text (id : string) (nm : option string) (ty : string) : string := id ++ ":" ++ qname nm ++ ":" ++ ty ++ " ".
+(* a NAME as the header holds it between its quotes: the reader takes the text between the quotes as it is (UnquoteName, since
+   the repair of K-C19-7) and cuts the header at the colons OUTSIDE quotes -- so = < > ( ) , : are ordinary characters of a name
+   (operator<, operator(), Const: ...).  Excluded: double quote, backslash, apostrophe (str(bytes) would escape them), ';' (the
+   reader decides header / properties by looking for a ';' anywhere), non printable characters, blanks at the ends. *)
+Definition name_char (c : ascii) : bool :=
+  let n := nat_of_ascii c in
+  Nat.leb 32 n && Nat.leb n 126 && negb (Ascii.eqb c DQ) && negb (Ascii.eqb c BSL) && negb (Ascii.eqb c SQ) && negb (Ascii.eqb c ";").
+Fixpoint name_chars (s : string) : bool := match s with EmptyString => true | String c r => name_char c && name_chars r end.
+Definition nameok (s : string) : bool := name_chars s && String.eqb (py_strip s) s.
+
 Definition headok (id : string) (nm : option string) (ty : string) : bool :=
   textok id && no_char ":" id && negb (String.eqb id "")
-  && match nm with Some s => textok s && no_char ":" s | None => true end
+  && match nm with Some s => nameok s | None => true end
   && textok ty && no_char ":" ty && negb (String.eqb ty "").
 
-(* the TOP-LEVEL header of a row's blob when the element NAME may hold colons: the reader cuts  b'id:name:type '  at EVERY colon
-   and takes the first three pieces, so the name entry is the first piece of the name and the type entry its second piece (or the
-   type when the name has no colon).  Nothing else of the parse depends on the header. *)
+(* (kept for the statements written before the repair of K-C19-7: the same domain as headok now) *)
 Definition headok_top (id : string) (nm : option string) (ty : string) : bool :=
   textok id && no_char ":" id && negb (String.eqb id "")
-  && match nm with Some s => textok s | None => true end
+  && match nm with Some s => nameok s | None => true end
   && textok ty && no_char ":" ty && negb (String.eqb ty "").
 
 (* a text without its last character *)
